@@ -90,7 +90,7 @@ def gen_in_site(rng, name, idx, opts):
     keyparts += [{'v': 'kw:' + k} for k in cap_kw]
     body = []
     if opts.get('body_effects') and rng.random() < 0.25:
-        body.append({'op': rng.choice(['force', 'discard', 'rec'] if opts.get('faults') else ['force', 'rec']),
+        body.append({'op': rng.choice(['force', 'discard', 'rec', 'disable', 'enable'] if opts.get('faults') else ['force', 'rec']),
                      'k': 'note', 'e': const({'s': 'from-body'})})
     extra = [const(rand_value(rng, 2))] if rng.random() < 0.5 else []
     if opts.get('aliasing') and rng.random() < 0.5:
@@ -177,7 +177,7 @@ def gen_script(rng, sites, opts, length=None):
             script.append({'op': 'play', 'k': 'data%d' % rng.randint(0, 1), 'x': x})
             vars_.append(x)
         elif c < 0.95 and opts.get('control'):
-            st = {'op': rng.choice(['force', 'discard'])}
+            st = {'op': rng.choice(['force', 'discard'] * 3 + ['disable', 'enable'])}
             if rng.random() < 0.3:
                 st['thread'] = True          # asked for from a helper thread the operation starts and joins
             script.append(st)
